@@ -124,6 +124,10 @@ def rand_data(rng, depth=3) -> dict:
 def rand_event_spec(rng, depth=3, max_dur=30 * DAY_US) -> dict:
     ts = rand_instant(rng)
     dur = rand_duration(rng, max_dur)
+    if dur > 0 and rng.random() < 0.15:
+        # the event straddles a power of two of the microsecond count: float spacing differs at start and end
+        k = rng.choice([48, 49, 50, 51, 51, 51])
+        ts = floor_ms(max(0, 2**k - rng.randrange(0, dur + 1)))
     if ts + dur >= MAX_US + 31 * DAY_US:
         dur = 0
     return dict(ts=ts, off=rand_offset(rng), dur=dur, data=rand_data(rng, depth))
